@@ -656,6 +656,15 @@ func (il *inliner) tryStmt(p *packages.Package, file string, s ast.Stmt) (inline
 		})
 		return ok
 	}
+	// generally: the first call the statement evaluates (operands left to right, inner before
+	// outer), when it is not evaluated conditionally (right operand of && or ||), can be
+	// evaluated just before the statement
+	if first := il.firstCall(p, s); first != nil && first != top {
+		il.requireSingle = true
+		if g, ok := il.tryCall(p, file, s, first, false); ok {
+			return g, true
+		}
+	}
 	if len(chain) == 1 && pure(top.Fun) {
 		for _, a := range top.Args {
 			x := a
@@ -1077,4 +1086,138 @@ func (il *inliner) closureHygienic(fs *funcSrc, p *packages.Package, at token.Po
 	check(fs.lit.Type)
 	check(fs.lit.Body)
 	return ok
+}
+
+// firstCall returns the call expression that the statement evaluates first, or nil when that
+// cannot be told syntactically (a call that is not a conversion or a pure builtin comes
+// earlier, or the candidate sits under && / ||, in a function literal, or the statement is of a
+// kind whose expressions are not evaluated exactly once before it runs).
+func (il *inliner) firstCall(p *packages.Package, s ast.Stmt) *ast.CallExpr {
+	var exprs []ast.Expr
+	switch x := s.(type) {
+	case *ast.ExprStmt:
+		exprs = []ast.Expr{x.X}
+	case *ast.AssignStmt:
+		exprs = append(append([]ast.Expr{}, x.Lhs...), x.Rhs...)
+	case *ast.ReturnStmt:
+		exprs = x.Results
+	case *ast.IfStmt:
+		if x.Init != nil {
+			return nil
+		}
+		exprs = []ast.Expr{x.Cond}
+	case *ast.SwitchStmt:
+		if x.Init != nil || x.Tag == nil {
+			return nil
+		}
+		exprs = []ast.Expr{x.Tag}
+	case *ast.RangeStmt:
+		exprs = []ast.Expr{x.X}
+	case *ast.DeclStmt:
+		if gd, ok := x.Decl.(*ast.GenDecl); ok && gd.Tok == token.VAR && len(gd.Specs) == 1 {
+			if vs, ok := gd.Specs[0].(*ast.ValueSpec); ok {
+				exprs = vs.Values
+			}
+		}
+	default:
+		return nil
+	}
+	var found *ast.CallExpr
+	blocked := false
+	isPureCall := func(c *ast.CallExpr) bool {
+		// conversions and len/cap evaluate nothing but their operand
+		if tv, ok := p.TypesInfo.Types[c.Fun]; ok && tv.IsType() {
+			return true
+		}
+		if id, ok := c.Fun.(*ast.Ident); ok {
+			if _, isB := p.TypesInfo.Uses[id].(*types.Builtin); isB && (id.Name == "len" || id.Name == "cap") {
+				return true
+			}
+		}
+		return false
+	}
+	var visit func(e ast.Expr)
+	visit = func(e ast.Expr) {
+		if e == nil || found != nil || blocked {
+			return
+		}
+		switch x := e.(type) {
+		case *ast.ParenExpr:
+			visit(x.X)
+		case *ast.BinaryExpr:
+			visit(x.X)
+			if x.Op == token.LAND || x.Op == token.LOR {
+				// the right operand is conditional: nothing in it may be hoisted, and nothing
+				// after it is "first" any more
+				if found == nil {
+					has := false
+					ast.Inspect(x.Y, func(n ast.Node) bool {
+						if _, ok := n.(*ast.CallExpr); ok {
+							has = true
+						}
+						return !has
+					})
+					if has {
+						blocked = true
+					}
+				}
+				return
+			}
+			visit(x.Y)
+		case *ast.UnaryExpr:
+			if x.Op == token.ARROW {
+				blocked = true
+				return
+			}
+			visit(x.X)
+		case *ast.StarExpr:
+			visit(x.X)
+		case *ast.SelectorExpr:
+			visit(x.X)
+		case *ast.IndexExpr:
+			visit(x.X)
+			visit(x.Index)
+		case *ast.SliceExpr:
+			visit(x.X)
+			visit(x.Low)
+			visit(x.High)
+			visit(x.Max)
+		case *ast.TypeAssertExpr:
+			visit(x.X)
+		case *ast.KeyValueExpr:
+			visit(x.Key)
+			visit(x.Value)
+		case *ast.CompositeLit:
+			for _, el := range x.Elts {
+				visit(el)
+			}
+		case *ast.CallExpr:
+			// operands first: function value, then arguments
+			if !isPureCall(x) {
+				visit(x.Fun)
+			}
+			for _, a := range x.Args {
+				visit(a)
+			}
+			if found != nil || blocked {
+				return
+			}
+			if isPureCall(x) {
+				return
+			}
+			found = x
+		case *ast.FuncLit:
+			// evaluating a literal evaluates nothing inside it
+		case *ast.Ident, *ast.BasicLit:
+		default:
+			blocked = true
+		}
+	}
+	for _, e := range exprs {
+		visit(e)
+	}
+	if blocked {
+		return nil
+	}
+	return found
 }
